@@ -1,343 +1,4 @@
-/* C11 (blackbox part): generated twin of c15_bb_dump.c -- a dump taken after any record is an unbroken run of the newest records */
+/* C11 (blackbox part): the round-trip mode of c15_bb_dump.c under the other property's name -- a dump taken after
+   any record is an unbroken run of the newest records ending with the very last one */
 #define VP_C11_TWIN 1
-/* C15 (+ blackbox part of C11): blackbox dump files — faithful round trip, and no crash on damaged files */
-#include "vp.h"
-#include <qb/qblog.h>
-#include <qb/qbdefs.h>
-#include <errno.h>
-#include <stdio.h>
-#include <stdarg.h>
-#include <string.h>
-#include <stdlib.h>
-#include <unistd.h>
-#include <fcntl.h>
-#include <dirent.h>
-#include <syslog.h>
-#include <time.h>
-#include <sys/stat.h>
-
-static int mode;                 /* 0 damage, 1 round trip after every record */
-static int depth, byteflip;
-
-/* ---- virtual wall clock: each log call gets its own timestamp ---- */
-static long clk_sec = 1700000000, clk_nsec;
-int __wrap_clock_gettime(clockid_t id, struct timespec *ts);
-int __wrap_clock_gettime(clockid_t id, struct timespec *ts) { (void)id; ts->tv_sec = clk_sec; ts->tv_nsec = clk_nsec; return 0; }
-
-/* ---- captured stdout of the library ---- */
-static char cap[1 << 18]; static size_t capn; static int capturing;
-int __wrap_printf(const char *fmt, ...);
-int __wrap_printf(const char *fmt, ...)
-{
-	va_list ap; int n;
-	va_start(ap, fmt);
-	if (!capturing) { n = vprintf(fmt, ap); va_end(ap); return n; }     /* the engine's own output */
-	n = vsnprintf(cap + capn, sizeof cap - capn, fmt, ap);
-	va_end(ap);
-	if (n > 0) capn += (size_t)n < sizeof cap - capn ? (size_t)n : sizeof cap - capn - 1;
-	return n;
-}
-int __wrap_puts(const char *s);
-int __wrap_puts(const char *s) { if (!capturing) return fputs(s, stdout) < 0 ? EOF : fputc('\n', stdout); return __wrap_printf("%s\n", s); }
-int __wrap_putchar(int c);
-int __wrap_putchar(int c) { if (!capturing) return fputc(c, stdout); return __wrap_printf("%c", c); }
-
-/* ---- records ---- */
-struct rec { int prio; uint32_t line, tags; long sec, nsec; char fn[24]; char msg[600]; };
-static struct rec LOGGED[64]; static int nlogged;
-static const char *prio_names[] = { "emerg", "alert", "crit", "error", "warning", "notice", "info", "debug", "trace" };
-static char dir[128], dumpf[160], dmgf[160];
-
-static void bb_start(int size)
-{
-	int r;
-	qb_log_init("vpbb", LOG_USER, LOG_EMERG);
-	qb_log_ctl(QB_LOG_SYSLOG, QB_LOG_CONF_ENABLED, QB_FALSE);
-	r = qb_log_ctl(QB_LOG_BLACKBOX, QB_LOG_CONF_SIZE, size);
-	if (r) vp_broken("blackbox size refused: %d", r);
-	qb_log_filter_ctl(QB_LOG_BLACKBOX, QB_LOG_FILTER_ADD, QB_LOG_FILTER_FILE, "bb.c", LOG_TRACE);   /* not libqb's own trace messages */
-	r = qb_log_ctl(QB_LOG_BLACKBOX, QB_LOG_CONF_ENABLED, QB_TRUE);
-	if (r) vp_broken("blackbox enable failed: %d", r);
-	nlogged = 0;
-}
-
-static void bb_log(int kind)
-{
-	struct rec *r = &LOGGED[nlogged];
-	static char big[600];
-	int n = nlogged;
-	clk_sec += 61; clk_nsec = (long)(n + 1) * 7000000;
-	r->sec = clk_sec; r->nsec = clk_nsec;
-	r->prio = LOG_ERR + kind; r->line = 500 + (uint32_t)kind; r->tags = 3 * (uint32_t)(kind + 1);   /* priority and tags belong to the call site */
-	snprintf(r->fn, sizeof r->fn, "func_%d", kind);
-	switch (kind) {
-	case 0:
-		snprintf(r->msg, sizeof r->msg, "r%d short", n);
-		qb_log_from_external_source(r->fn, "bb.c", "r%d short", (uint8_t)r->prio, r->line, r->tags, n);
-		break;
-	case 1:
-		snprintf(r->msg, sizeof r->msg, "r%d with %s and %5.2f and %lu%%", n, "a string", 3.25, 99UL);
-		qb_log_from_external_source(r->fn, "bb.c", "r%d with %s and %5.2f and %lu%%", (uint8_t)r->prio, r->line, r->tags, n, "a string", 3.25, 99UL);
-		break;
-	case 2:
-		memset(big, 'B', 400); big[400] = 0;
-		snprintf(r->msg, sizeof r->msg, "r%d %s", n, big);
-		qb_log_from_external_source(r->fn, "bb.c", "r%d %s", (uint8_t)r->prio, r->line, r->tags, n, big);
-		break;
-	default:
-		/* over-long: the blackbox stores a replacement text */
-		memset(big, 'L', 599); big[599] = 0;
-		snprintf(r->msg, sizeof r->msg, "Log message too long to be stored in the blackbox.  Maximum is QB_LOG_MAX_LEN");
-		qb_log_from_external_source(r->fn, "bb.c", "r%d %s", (uint8_t)r->prio, r->line, r->tags, n, big);
-		break;
-	}
-	nlogged++;
-}
-
-static int list_shm(char *out, size_t capacity)
-{
-	DIR *d = opendir("/dev/shm"); struct dirent *e; size_t l = 0; int n = 0;
-	out[0] = 0;
-	if (!d) return -1;
-	while ((e = readdir(d))) { if (e->d_name[0] == '.') continue; l += snprintf(out + l, capacity - l, "%s;", e->d_name); n++; }
-	closedir(d);
-	return n;
-}
-
-/* parse what print_from_file wrote and compare with the newest records */
-static void check_round_trip(const char *why)
-{
-	char *line = cap, *nl;
-	int nprinted = 0, first, i;
-	if (vp_tracing) vp_logf("--- captured output ---\n%s---", cap);
-	struct { char prio[16], time[40], fn[40]; unsigned line, tags; char msg[700]; } P[64];
-	while ((nl = strchr(line, '\n'))) {
-		*nl = 0;
-		if (!strncmp(line, "Ringbuffer", 10) || line[0] == ' ' || !*line) { line = nl + 1; continue; }
-		if (nprinted < 64) {
-			char mon[8]; int day, hh, mm, ss, ms, off = 0;
-			if (sscanf(line, "%15s %7s %d %d:%d:%d.%d %39[^(](%u):%u: %n", P[nprinted].prio, mon, &day, &hh, &mm, &ss, &ms, P[nprinted].fn, &P[nprinted].line, &P[nprinted].tags, &off) < 10 || !off)
-				vp_fail("%s: unparsable output line '%.80s'", why, line);
-			snprintf(P[nprinted].time, sizeof P[nprinted].time, "%s %02d %02d:%02d:%02d.%03d", mon, day, hh, mm, ss, ms);
-			snprintf(P[nprinted].msg, sizeof P[nprinted].msg, "%s", line + off);
-			nprinted++;
-		}
-		line = nl + 1;
-	}
-	if (nlogged && nprinted < 1) vp_fail("%s: %d records logged, the dump prints none", why, nlogged);
-	if (nprinted > nlogged) vp_fail("%s: dump prints %d records, only %d were logged", why, nprinted, nlogged);
-	first = nlogged - nprinted;
-	for (i = 0; i < nprinted; i++) {
-		struct rec *r = &LOGGED[first + i];
-		char tb[40]; struct tm tm; time_t s = r->sec; size_t n;
-		localtime_r(&s, &tm);
-		n = strftime(tb, sizeof tb, "%b %d %T", &tm);
-		snprintf(tb + n, sizeof tb - n, ".%03ld", r->nsec / 1000000);
-		if (strcmp(P[i].prio, prio_names[r->prio]) || strcmp(P[i].fn, r->fn) || P[i].line != r->line || P[i].tags != r->tags)
-			vp_fail("%s: printed record %d of %d is '%s %s(%u):%u', logged record #%d was '%s %s(%u):%u' (the dump must be an unbroken run ending with the last record)",
-				why, i, nprinted, P[i].prio, P[i].fn, P[i].line, P[i].tags, first + i, prio_names[r->prio], r->fn, r->line, r->tags);
-		if (strcmp(P[i].time, tb)) vp_fail("%s: record #%d printed with time '%s', logged at '%s'", why, first + i, P[i].time, tb);
-		if (strcmp(P[i].msg, r->msg)) vp_fail("%s: record #%d printed as '%.60s', logged as '%.60s'", why, first + i, P[i].msg, r->msg);
-	}
-	vp_outcome_u64((uint64_t)nprinted);
-}
-
-static unsigned char *base[4]; static size_t base_len[4]; static int nbase;
-static size_t rec_off[4][16]; static int nrec_off[4];      /* offsets of record fields in each base dump */
-
-static unsigned char *slurp(const char *f, size_t *len)
-{
-	FILE *fp = fopen(f, "rb"); unsigned char *b; long n;
-	if (!fp) vp_broken("cannot read %s", f);
-	fseek(fp, 0, SEEK_END); n = ftell(fp); fseek(fp, 0, SEEK_SET);
-	b = malloc((size_t)n + 1);
-	if (fread(b, 1, (size_t)n, fp) != (size_t)n) vp_broken("short read");
-	fclose(fp); *len = (size_t)n;
-	return b;
-}
-static void spit(const char *f, const unsigned char *b, size_t n)
-{
-	int fd = open(f, O_CREAT | O_TRUNC | O_WRONLY, 0600);
-	if (fd < 0 || write(fd, b, n) != (ssize_t)n) vp_broken("cannot write %s", f);
-	close(fd);
-}
-
-static void setup(void)
-{
-	int cfg;
-	snprintf(dir, sizeof dir, "/dev/shm/vpdump-%d", vp_worker_id());
-	mkdir(dir, 0700);
-	snprintf(dumpf, sizeof dumpf, "%s/dump.fdata", dir);
-	snprintf(dmgf, sizeof dmgf, "%s/damaged.fdata", dir);
-	if (mode != 0) return;
-	capturing = 1;
-	/* base dumps: 1 record, 3 records, many records (wrapped) */
-	for (cfg = 0; cfg < 3; cfg++) {
-		int i, n = cfg == 0 ? 1 : cfg == 1 ? 3 : 14;
-		bb_start(2048);
-		for (i = 0; i < n; i++) bb_log(cfg == 2 ? i % 3 : i % 2);
-		unlink(dumpf);
-		if (qb_log_blackbox_write_to_file(dumpf) < 0) vp_broken("write_to_file failed");
-		base[nbase] = slurp(dumpf, &base_len[nbase]);
-		/* locate the oldest record: file = 20 byte marker block, 20 byte ring header, data */
-		{
-			uint32_t ws, wp, rp; size_t o;
-			memcpy(&ws, base[nbase] + 20, 4); memcpy(&wp, base[nbase] + 24, 4); memcpy(&rp, base[nbase] + 28, 4);
-			o = 40 + (size_t)rp * 4;
-			nrec_off[nbase] = 0;
-			if (o + 64 < base_len[nbase]) {
-				uint32_t fnlen;
-				size_t k = 0;
-				rec_off[nbase][k++] = o;            /* chunk size */
-				rec_off[nbase][k++] = o + 4;        /* chunk magic */
-				rec_off[nbase][k++] = o + 8;        /* line */
-				rec_off[nbase][k++] = o + 12;       /* tags */
-				rec_off[nbase][k++] = o + 16;       /* priority (byte) + first bytes of fn length */
-				rec_off[nbase][k++] = o + 17;       /* function length */
-				memcpy(&fnlen, base[nbase] + o + 17, 4);
-				if (fnlen < 64) {
-					rec_off[nbase][k++] = o + 21 + fnlen;        /* timestamp */
-					rec_off[nbase][k++] = o + 21 + fnlen + 8;
-					rec_off[nbase][k++] = o + 21 + fnlen + 16;   /* message length */
-					rec_off[nbase][k++] = o + 21 + fnlen + 20;   /* message: format text */
-				}
-				nrec_off[nbase] = (int)k;
-			}
-			(void)ws; (void)wp;
-		}
-		nbase++;
-		qb_log_fini();
-	}
-	capturing = 0;
-}
-
-static const char *small_files[] = { "", "x", "\0\0\0\0", "\xff\xff\xff\xff\xff\xff\xff\xff\xff\xff\xff\xff\xff\xff\xff\xff\xff\xff\xff\xff\xff\xff\xff\xff" };
-
-static void run_damage(void)
-{
-	int b = vp_choose(nbase, "base dump"), kind = vp_choose(byteflip ? 6 : 5, "damage kind"), rc;
-	size_t len = base_len[b];
-	unsigned char *f = malloc(len + 64);
-	char before[4096], after[4096];
-	static const char *kn[] = { "truncate", "header word", "two header words", "record field", "arbitrary small file", "byte flip" };
-	memcpy(f, base[b], len);
-	if (kind == 0) {
-		/* every truncation length: all below 256, then every 16th byte plus the last 64 */
-		size_t steps = 256 + (len - 256) / 16 + 64, c = (size_t)vp_choose((int)steps, "length");
-		len = c < 256 ? c : c < 256 + (len - 256) / 16 ? 256 + (c - 256) * 16 : len - (steps - c);
-		if (len < 64) {
-			/* a short file that still announces a plausible (tiny) ring: gets past the size check */
-			static const uint32_t wsv[] = { 0xffffffffu, 0, 1, 5 };
-			int w = vp_choose(4, "announced word_size");
-			if (w) { memcpy(f + 20, &wsv[w], 4); vp_log("word_size := %u", wsv[w]); }
-		}
-	} else if (kind == 1 || kind == 2) {
-		int w = vp_choose(10, "word"), v;
-		int32_t vals[12]; uint32_t truev, ws;
-		memcpy(&ws, f + 20, 4);
-		memcpy(&truev, f + 4 * w, 4);
-		vals[0] = 0; vals[1] = 1; vals[2] = -1; vals[3] = 0x7fffffff; vals[4] = (int32_t)0x80000000; vals[5] = (int32_t)truev + 1; vals[6] = (int32_t)truev - 1;
-		vals[7] = (int32_t)ws; vals[8] = (int32_t)len; vals[9] = (int32_t)(len / 4); vals[10] = (int32_t)ws + 1; vals[11] = 13;
-		v = vp_choose(12, "value");
-		memcpy(f + 4 * w, &vals[v], 4);
-		if (kind == 2) {
-			int w2 = 5 + vp_choose(5, "second word"), v2 = vp_choose(12, "second value");
-			memcpy(f + 4 * w2, &vals[v2], 4);
-			/* keep the header hash consistent in half of the cases so that the values get past the hash check */
-			if (vp_choose(2, "fix hash")) { uint32_t a, bb, c2, d, h; memcpy(&a, f + 20, 4); memcpy(&bb, f + 24, 4); memcpy(&c2, f + 28, 4); memcpy(&d, f + 32, 4); h = a + bb + c2 + d; memcpy(f + 36, &h, 4); }
-		} else if (w >= 5 && w <= 8 && vp_choose(2, "fix hash")) {
-			uint32_t a, bb, c2, d, h; memcpy(&a, f + 20, 4); memcpy(&bb, f + 24, 4); memcpy(&c2, f + 28, 4); memcpy(&d, f + 32, 4); h = a + bb + c2 + d; memcpy(f + 36, &h, 4);
-		}
-		vp_log("word %d := value %d", w, v);
-	} else if (kind == 3) {
-		int k, v; int32_t vals[10]; uint32_t truev;
-		if (!nrec_off[b]) { free(f); vp_pruned(); return; }
-		k = vp_choose(nrec_off[b], "field");
-		memcpy(&truev, f + rec_off[b][k], 4);
-		vals[0] = 0; vals[1] = 1; vals[2] = -1; vals[3] = 0x7fffffff; vals[4] = (int32_t)0x80000000; vals[5] = (int32_t)truev + 1; vals[6] = (int32_t)truev - 1;
-		vals[7] = 512; vals[8] = 513; vals[9] = 0x25252525;     /* "%%%%" */
-		v = vp_choose(10, "value");
-		memcpy(f + rec_off[b][k], &vals[v], 4);
-		vp_log("record field %d (offset %zu) := value %d", k, rec_off[b][k], v);
-	} else if (kind == 4) {
-		int c = vp_choose(4 + 3, "file");
-		if (c < 4) { len = c == 2 ? 4 : c == 3 ? 24 : strlen(small_files[c]); memcpy(f, small_files[c], len); }
-		else if (c == 4) len = 20;                    /* marker block only */
-		else if (c == 5) len = 40;                    /* both headers, no data */
-		else { memset(f, 0xff, len); }
-	} else {
-		size_t pos = (size_t)vp_choose((int)len, "byte");
-		/* headers and the first records byte by byte, the rest is covered by the field damage */
-		f[pos] ^= 0xff;
-	}
-	spit(dmgf, f, len);
-	free(f);
-	vp_log("base dump %d (%zu bytes), damage: %s -> %zu bytes", b, base_len[b], kn[kind], len);
-	/* leftovers of an earlier execution that crashed inside the reader must not influence this one */
-	unlink("/dev/shm/qb-create_from_file-header"); unlink("/dev/shm/qb-create_from_file-data");
-	list_shm(before, sizeof before);
-	capn = 0; cap[0] = 0;
-	rc = qb_log_blackbox_print_from_file(dmgf);
-	vp_log("print_from_file = %d", rc);
-	list_shm(after, sizeof after);
-	if (strcmp(before, after)) vp_fail("printing a damaged dump left files in /dev/shm: before '%s' after '%s'", before, after);
-	vp_outcome_u64((uint64_t)(rc < 0 ? 1 : 0) + 2 * (uint64_t)(capn > 0));
-	vp_state(((uint64_t)b << 40) ^ ((uint64_t)kind << 32) ^ vp_hash(&len, sizeof len, (uint64_t)vp_depth()));
-}
-
-static void run_roundtrip(void)
-{
-	static const int sizes[] = { 1024, 2048, 4096 };
-	int size = sizes[vp_choose(3, "blackbox size")], step, rc;
-	char before[4096], after[4096];
-	bb_start(size);
-	vp_log("blackbox of %d bytes", size);
-	{
-		/* start near the wrap point of the (page rounded) ring as well */
-		static const int pre[] = { 0, 7, 9, 12 };
-		int i, n = pre[vp_choose(4, "records logged before")];
-		for (i = 0; i < n; i++) bb_log(2);
-		if (n) vp_log("%d records of 400 characters logged first", n);
-	}
-	for (step = 0; step < depth; step++) {
-		int kind = vp_choose(4, "record kind");
-		bb_log(kind);
-		vp_log("log record #%d kind %d: '%.40s'", nlogged - 1, kind, LOGGED[nlogged - 1].msg);
-		unlink(dumpf);
-		if (qb_log_blackbox_write_to_file(dumpf) < 0) vp_fail("qb_log_blackbox_write_to_file failed after record %d", nlogged);
-		list_shm(before, sizeof before);
-		capn = 0; cap[0] = 0;
-		rc = qb_log_blackbox_print_from_file(dumpf);
-		(void)rc;    /* the result code is not specified (the reader ends on the first failing read) */
-		list_shm(after, sizeof after);
-		if (strcmp(before, after)) vp_fail("printing a valid dump left files in /dev/shm: '%s' -> '%s'", before, after);
-		check_round_trip("dump after a record");
-	}
-	qb_log_fini();
-}
-
-static void run(void) { capturing = 1; if (mode == 0) run_damage(); else run_roundtrip(); capturing = 0; }
-
-static void init(void)
-{
-	mode = (int)vp_param("round_trip", 0, 0);
-	depth = (int)vp_param("records", 5, 7);
-	byteflip = (int)vp_param("byte_flips", 0, 1);
-}
-
-int main(int argc, char **argv)
-{
-	static struct vp_harness h = {
-		.property = "C11", .name = "c11_bb_newest", .level = "model_checking",
-		.run = run, .init = init, .setup = setup, .batch = 100, .private_shm = 1, .timeout_s = 30,
-		.rule = "round_trip=1: every sequence of <= records log calls (short, mixed conversions, 400-character, over-long) into blackboxes of "
-			"1024/2048/4096 bytes; after EVERY record the blackbox is written to a file, printed with qb_log_blackbox_print_from_file and "
-			"the captured output parsed and compared field by field (priority, function, line, tags, timestamp, text) with the newest "
-			"records, which must form an unbroken run ending with the last one.  round_trip=0: three valid dumps (1, 3, 14 wrapped records) "
-			"damaged by every truncation length (<256 bytewise, then every 16th, last 64), every header word x 12 boundary values (with and "
-			"without a repaired hash), pairs of header words, every field of the oldest record x 10 values, structurally arbitrary small "
-			"files, optionally single byte flips; the print call must return, ASan-clean, leaving /dev/shm as it was",
-		.assumptions = { "one forked batch per 100 files, a crash is attributed to the file being printed", "wall clock replaced by a counter", NULL },
-	};
-	return vp_main(argc, argv, &h);
-}
+#include "c15_bb_dump.c"
